@@ -52,20 +52,20 @@ func dump(args []string) int {
 		}
 		var as []string
 		for _, a := range ev.Args {
-			as = append(as, a.Key())
+			as = append(as, clip(a.Key()))
 		}
-		fmt.Printf("EV %-10s %-40s [%s]\n      guard=%s loops=%d stack=%s\n", ev.Kind, ev.Callee, strings.Join(as, ", "), ev.Guard.Key(), len(ev.Loops), ev.Frame.Stack())
+		fmt.Printf("EV %-10s %-40s [%s]\n      guard=%s loops=%d stack=%s\n", ev.Kind, ev.Callee, strings.Join(as, ", "), clip(ev.Guard.Key()), len(ev.Loops), ev.Frame.Stack())
 		for i, va := range ev.VarArgs {
 			if va != nil {
 				var vs []string
 				for _, v := range va {
-					vs = append(vs, v.Key())
+					vs = append(vs, clip(v.Key()))
 				}
 				fmt.Printf("      vararg[%d]=%s\n", i, strings.Join(vs, ", "))
 			}
 		}
 	}
-	fmt.Println("RESULT", res.Key())
+	fmt.Println("RESULT", clip(res.Key()))
 	if mem != nil {
 		for _, k := range mem.Keys() {
 			if !strings.HasPrefix(k, "global:") {
@@ -79,4 +79,13 @@ func dump(args []string) int {
 	fmt.Println("steps", in.Steps)
 	_ = sym.True
 	return 0
+}
+
+var clipLen = 400
+
+func clip(s string) string {
+	if len(s) > clipLen {
+		return s[:clipLen] + "…"
+	}
+	return s
 }
